@@ -209,8 +209,12 @@ Proof. apply run_frame. Qed.
 
 (* ---------- atomic handlers ---------- *)
 
-Definition atomic (h : prog) : Prop :=
-  forall g t e g' t', run h g t = (Err e, g', t') -> t' = t.
+Definition atomic (h : handler) : Prop :=
+  forall g t e g' t', h g t = (Err e, g', t') -> t' = t.
+
+(* a handler that only ever writes the innermost layer of the tree it is given *)
+Definition framed (h : handler) : Prop :=
+  forall g t r g' t', h g t = (r, g', t') -> frame t t'.
 
 (* never returns an error *)
 Inductive nofail : prog -> Prop :=
@@ -240,7 +244,7 @@ Proof.
   - destruct (run body g (copen t)) as [[rb gb] tb]. destruct rb; apply IH.
 Qed.
 
-Lemma safe_atomic p : safe p -> atomic p.
+Lemma safe_atomic p : safe p -> atomic (run p).
 Proof.
   induction 1 as [r|k c _ IH|a c _ IH|k v c Hn|k c Hn|body c Hn _ IH]; intros g t e g' t' H; cbn [run] in H.
   - injection H as _ _ <-. reflexivity.
@@ -256,8 +260,11 @@ Proof.
 Qed.
 
 (* Any body whatsoever, wrapped in a transaction layer, is atomic. *)
-Lemma tx_wrapped_atomic body : atomic (Tx body Ret).
+Lemma tx_wrapped_atomic body : atomic (run (Tx body Ret)).
 Proof. apply safe_atomic. constructor; [constructor|intro e; constructor]. Qed.
+
+Lemma run_framed p : framed (run p).
+Proof. intros g t r g' t' H. eapply run_frame; exact H. Qed.
 
 (* ---------- authentication ---------- *)
 
@@ -335,7 +342,7 @@ Proof.
     { injection H as _ _ <- <-. left; auto. }
     destruct ((0 <? p_min_gas_price P) && negb false && (gas_price x <? p_min_gas_price P)).
     { injection H as _ _ <- <-. left; auto. }
-    destruct (run h g2 t) as [[r3 g3] t2] eqn:R. destruct r3 as [|e3].
+    destruct (h g2 t) as [[r3 g3] t2] eqn:R. destruct r3 as [|e3].
     + cbn [post_exec] in H. discriminate.
     + injection H as _ _ <- <-. left. split; [eapply Hat; exact R|reflexivity].
   - destruct (auth P Deliver t fa x) as [e1|[[t1 fa1] g1]] eqn:Ea.
@@ -345,7 +352,7 @@ Proof.
     { injection H as _ _ <- <-. reflexivity. }
     destruct ((0 <? p_min_gas_price P) && negb false && (gas_price x <? p_min_gas_price P)).
     { injection H as _ _ <- <-. reflexivity. }
-    destruct (run h g2 t1) as [[r3 g3] t2] eqn:R. destruct r3 as [|e3].
+    destruct (h g2 t1) as [[r3 g3] t2] eqn:R. destruct r3 as [|e3].
     + cbn [post_exec] in H. discriminate.
     + injection H as _ _ <- <-. rewrite (Hat _ _ _ _ _ R). reflexivity.
 Qed.
@@ -370,13 +377,13 @@ Qed.
 
 (* every handler follows one of the two conventions: no semantic premise left *)
 Lemma failed_tx_effect_safe_handlers P exec dec size s e g s' :
-  (forall x h, exec Deliver x = Some h -> safe h) ->
+  (forall x h, exec Deliver x = Some h -> exists p, h = run p /\ safe p) ->
   deliver P exec dec size s = (Err e, g, s') ->
   s' = s \/ (exists x, dec = Some x /\ s' = post_auth_state s x).
 Proof.
   intros Hs H.
   destruct (failed_tx_effect_generic _ _ _ _ _ _ _ _ H) as [->|[x [g1 [t1 [fa1 [Hd [_ [_ ->]]]]]]]].
-  - intros x h _ Hx. apply safe_atomic. eapply Hs; exact Hx.
+  - intros x h _ Hx. destruct (Hs _ _ Hx) as [p [-> Sp]]. apply safe_atomic. exact Sp.
   - left; reflexivity.
   - right. exists x. auto.
 Qed.
@@ -408,22 +415,24 @@ Qed.
 (* Whatever a delivered transaction does, it only writes the block's proposal
    overlay: the last committed tree is not touched before Commit. *)
 Lemma deliver_frame P exec dec size s r g s' :
+  (forall x h, exec Deliver x = Some h -> framed h) ->
   deliver P exec dec size s = (r, g, s') ->
   frame (m_tree s) (m_tree s') /\ m_check s' = m_check s.
 Proof.
-  unfold deliver. destruct dec as [x|].
+  intros Hfr. unfold deliver. destruct dec as [x|].
   2:{ intros H; injection H as _ _ <-. split; [apply frame_refl|reflexivity]. }
   destruct (process_tx P exec Deliver (m_tree s) (m_feeacc s) x size) as [[[r2 g2] t'] fa'] eqn:Pr.
   intros H; injection H as _ _ <-. cbn [m_tree m_check]. split; [|reflexivity].
-  unfold process_tx in Pr. destruct (exec Deliver x) as [h|].
+  unfold process_tx in Pr. destruct (exec Deliver x) as [h|] eqn:Ex.
   2:{ injection Pr as _ _ <- _. apply frame_refl. }
+  specialize (Hfr x h Ex).
   assert (Hrun : forall g0 t1 fa1 (F : frame (m_tree s) t1),
     match use_gas ((size * p_byte_cost P) mod two64) g0 with
     | inl e => (Err e, g0, t1, fa1)
     | inr g3 =>
         if (0 <? p_min_gas_price P) && negb false && (gas_price x <? p_min_gas_price P)
         then (Err E_GAS_PRICE_TOO_LOW, g3, t1, fa1)
-        else match run h g3 t1 with
+        else match h g3 t1 with
              | (Err e, g4, t2) => (Err e, g4, t2, fa1)
              | (Ok, g4, t2) => match post_exec Deliver t2 x with
                                | inl e => (Err e, g4, t2, fa1)
@@ -435,7 +444,7 @@ Proof.
     - intros E; injection E as _ _ <- _. exact F.
     - destruct (_ && _ && _).
       + intros E; injection E as _ _ <- _. exact F.
-      + destruct (run h g3 t1) as [[r3 g4] t2] eqn:R. pose proof (run_frame _ _ _ _ _ _ R) as F2.
+      + destruct (h g3 t1) as [[r3 g4] t2] eqn:R. pose proof (Hfr _ _ _ _ _ R) as F2.
         destruct r3; cbn [post_exec]; intros E; injection E as _ _ <- _; eapply frame_trans; eauto. }
   destruct (tx_critical x).
   - exact (Hrun nop_gas (m_tree s) (m_feeacc s) (frame_refl _) Pr).
@@ -480,7 +489,7 @@ Example ex_safe_is_safe : safe ex_safe.
 Proof. repeat constructor. Qed.
 
 Example ex_failed_tx_effect :
-  exists g, deliver exP (fun _ _ => Some ex_safe) (Some ex_tx) 200 ex_s0 = (Err 100, g, post_auth_state ex_s0 ex_tx)
+  exists g, deliver exP (fun _ _ => Some (run ex_safe)) (Some ex_tx) 200 ex_s0 = (Err 100, g, post_auth_state ex_s0 ex_tx)
   /\ post_auth_state ex_s0 ex_tx <> ex_s0.
 Proof. eexists. split; [vm_compute; reflexivity|]. vm_compute. discriminate. Qed.
 
@@ -493,7 +502,7 @@ Example ex_auth_failure :
 Proof. eexists. vm_compute. reflexivity. Qed.
 
 Example ex_out_of_gas_in_handler :
-  exists g, deliver exP (fun _ _ => Some ex_safe) (Some (mkTx 1 3 40 249 0 false 0)) 200 ex_s0
+  exists g, deliver exP (fun _ _ => Some (run ex_safe)) (Some (mkTx 1 3 40 249 0 false 0)) 200 ex_s0
             = (Err E_OUT_OF_GAS, g, post_auth_state ex_s0 (mkTx 1 3 40 249 0 false 0)).
 Proof. eexists. vm_compute. reflexivity. Qed.
 
@@ -508,12 +517,12 @@ Lemma mux_does_not_roll_back :
   exists P exec x size s e g s',
     deliver P exec (Some x) size s = (Err e, g, s') /\ s' <> s /\ s' <> post_auth_state s x.
 Proof.
-  exists exP, (fun _ _ => Some ex_unsafe), ex_tx, 200, ex_s0. eexists _, _, _.
+  exists exP, (fun _ _ => Some (run ex_unsafe)), ex_tx, 200, ex_s0. eexists _, _, _.
   split; [vm_compute; reflexivity|]. split; vm_compute; discriminate.
 Qed.
 
 Example ex_check_estimate :
-  fst (fst (check_tx exP (fun _ _ => Some ex_unsafe) (Some ex_tx) 200 ex_s0)) = Err 100 /\
-  m_check (snd (check_tx exP (fun _ _ => Some ex_unsafe) (Some ex_tx) 200 ex_s0)) <> m_check ex_s0 /\
-  fst (estimate_gas exP (fun _ _ => Some ex_unsafe) ex_tx 200 ex_s0) = 250.
+  fst (fst (check_tx exP (fun _ _ => Some (run ex_unsafe)) (Some ex_tx) 200 ex_s0)) = Err 100 /\
+  m_check (snd (check_tx exP (fun _ _ => Some (run ex_unsafe)) (Some ex_tx) 200 ex_s0)) <> m_check ex_s0 /\
+  fst (estimate_gas exP (fun _ _ => Some (run ex_unsafe)) ex_tx 200 ex_s0) = 250.
 Proof. vm_compute. repeat split; discriminate. Qed.
